@@ -843,7 +843,7 @@ def extra_phase(pid, tier, seed):
             out["samples"].extend(samples)
         out["classes"]["requests_pending_over_10s_real_time"] = out["evaluations"]
         return out
-    which = {"C02": "timeout", "C03": "timeout", "C06": "order"}.get(pid)
+    which = {"C01": "timeout", "C02": "timeout", "C03": "timeout", "C06": "order"}.get(pid)
     if which is None:
         return None
     nw = vc.NCPU
